@@ -9,7 +9,8 @@ search         : from-scratch twin oracle: the same history on the bare learner 
                  lock-step, every public observable compared after every operation (npoints, data,
                  pending_points, loss(real) both ways, bounds & co., every public attribute read through
                  the wrapper vs read on the wrapped learner); extra_data keys/values; picker called
-                 exactly once per tell; save / load / copy_from / _set_data INTO savers that already hold
+                 exactly once per tell; results a partial picker rejects leave the saver untouched; positional
+                 and keyword spellings of every delegated call; save / load / copy_from / _set_data INTO savers that already hold
                  data (earlier checkpoint of the same run, another run), wrapped learners that held data
                  before they were wrapped, data fed to the wrapped learner directly; pickle
 """
@@ -96,11 +97,49 @@ def learner_merges(kind):
 
 class CountingPicker:
     def __init__(self, f):
-        self.f, self.calls = f, []
+        self.f, self.calls, self.raised = f, [], 0
 
     def __call__(self, r):
         self.calls.append(r)
-        return self.f(r)
+        try:
+            return self.f(r)
+        except Exception:
+            self.raised += 1          # the picker itself rejected the result
+            raise
+
+
+BAD_KINDS = ["missing_key", "wrong_type", "none"]
+
+
+def bad_result(badkind, tag):
+    """A result a PARTIAL picker (itemgetter('y'), lambda r: r['y']) rejects; with the identity picker `None`
+    reaches the wrapped learner, which rejects it itself (Learner1D, AverageLearner1D: TypeError)."""
+    if badkind == "missing_key":
+        return {"t": 0.3, "error": "diverged", "tag": int(tag)}
+    if badkind == "wrong_type":
+        return 0.3 + int(tag)
+    return None
+
+
+SPELLINGS = ["kw", "pos", "allkw", "default"]
+
+
+def call_ask(l, n, commit, sp):
+    if sp == "pos":
+        return l.ask(n, commit)
+    if sp == "allkw":
+        return l.ask(n=n, tell_pending=commit)
+    if sp == "default" and commit:
+        return l.ask(n)
+    return l.ask(n, tell_pending=commit)
+
+
+def call_loss(l, real, sp):
+    if sp == "pos":
+        return l.loss(real)
+    if sp == "default" and real:
+        return l.loss()
+    return l.loss(real=real)
 
 
 def safe_loss(l, real):
@@ -153,6 +192,8 @@ def gen_history(rng, kind, maxlen, persist=True):
             h.append(("tell_pending",))
         elif r < 0.64:
             h.append(("tell_pending_told",))
+        elif r < 0.665:
+            h.append(("tell_bad",))
         elif r < 0.71:
             h.append(("tell_many", rng.choice([0, 1, 2, 2, 3, 4, 5]), rng.choice(ITER_MODES), rng.choice(ITER_MODES)))
         elif r < 0.78:
@@ -225,7 +266,7 @@ def apply_op(kind, l, op, wrapped, picker_name, side=None):
     try:
         child = l.learner if wrapped else l
         if op[0] == "ask":
-            pts, imps = l.ask(op[1], tell_pending=op[2])
+            pts, imps = call_ask(l, op[1], op[2], op[3] if len(op) > 3 else "kw")
             return ("ask", [W.enc_point(kind, p) for p in pts], [float(v) for v in imps], list(pts))
         if op[0] == "tell":
             p = dec_point(kind, child, op[1])
@@ -235,18 +276,44 @@ def apply_op(kind, l, op, wrapped, picker_name, side=None):
         if op[0] == "tell_many":
             xs = [dec_point(kind, child, it[0]) for it in op[1]]
             rs = [make_result(picker_name, it[1], it[2]) for it in op[1]]
-            if wrapped:
+            if wrapped and len(op) > 4 and op[4] == "kw":
+                l.tell_many(xs=one_shot(xs, op[2], rs), ys=one_shot(rs, op[3], xs))
+            elif wrapped:
                 l.tell_many(one_shot(xs, op[2], rs), one_shot(rs, op[3], xs))
             else:                       # the bare learner fed the picked values, one by one
                 pk = make_picker(picker_name)
                 for p, r in zip(xs, rs):
                     l.tell(p, pk(r))
             return ("none",)
+        if op[0] == "tell_bad":
+            # a result the picker may reject: then the DataSaver must raise and be left as it was, and the bare
+            # learner is told nothing; a result the picker lets through is the wrapped learner's business
+            p = dec_point(kind, child, op[1])
+            bad = bad_result(op[2], op[3])
+            if wrapped:
+                pk = l.arg_picker
+                before = pk.raised
+                try:
+                    l.tell(p, bad)
+                except Exception as e:
+                    if pk.raised > before:
+                        return ("rejected", type(e).__name__)
+                    raise
+                return ("none",)
+            try:
+                v = make_picker(picker_name)(bad)
+            except Exception as e:
+                return ("rejected", type(e).__name__)
+            l.tell(p, v)
+            return ("none",)
         if op[0] == "tell_pending":
-            l.tell_pending(dec_point(kind, child, op[1]))
+            if wrapped and len(op) > 2 and op[2] == "kw":
+                l.tell_pending(x=dec_point(kind, child, op[1]))      # DataSaver.tell_pending(self, x)
+            else:
+                l.tell_pending(dec_point(kind, child, op[1]))
             return ("none",)
         if op[0] == "loss":
-            return ("loss", float(l.loss(real=op[1])))
+            return ("loss", float(call_loss(l, op[1], op[2] if len(op) > 2 else "kw")))
         if op[0] == "remove_unfinished":
             l.remove_unfinished()
             return ("none",)
@@ -441,17 +508,22 @@ def drive(spec, hist=None, rng=None, concrete=None, record=True, overwrites=True
         donor = drive(dspec, concrete=spec["donor"]["ops"], record=False, overwrites=overwrites, is_donor=True)
         errors.extend((sig, "in the other run: " + msg) for sig, msg in donor["errors"])
         try:
+            if donor["tainted"]:
+                raise StopIteration
             donor["ds"].save(wside.path("donor"))
             donor["twin"].save(tside.path("donor"))
             wside.donor, tside.donor = donor["ds"], donor["twin"]
             slots["donor"] = {"expected": {k: list(v) for k, v in donor["expected_extra"].items()},
                               "order": list(donor["key_order"]), "excused": set(donor["excused"]),
                               "T": set(told_map(kind, donor["ds"].learner)), "extra_obs": extra_obs(donor["ds"])}
+        except StopIteration:
+            donor = None
         except Exception as e:
             errors.append(("C18:persist_exception", f"saving the other run: {type(e).__name__}: {e}"))
             donor = None
 
     live_copied = [False]
+    tainted = [False]        # a rejected tell left a result behind (reported): not a state to copy from
     retell_at = [None]       # index of the first re-tell the child ignored (F20 trigger), if any
     drop_at = [None]         # index of the first load into a saver holding results of points that are not in the
                              # loaded state but that the wrapped learner keeps knowing (its _set_data merges)
@@ -477,6 +549,7 @@ def drive(spec, hist=None, rng=None, concrete=None, record=True, overwrites=True
         items = items_of(op)
         cur = told_map(kind, child) if items else {}
         old_keys = list(key_order)
+        extra_before = list(ds.extra_data.items()) if op[0] in ("tell", "tell_bad") else None
         live_src = None
         if op[0] == "restore" and op[2] in LIVE_HOWS:      # the other run as it is right now
             live_src = {"expected": {k: list(v) for k, v in donor["expected_extra"].items()}, "order": list(donor["key_order"]),
@@ -509,8 +582,36 @@ def drive(spec, hist=None, rng=None, concrete=None, record=True, overwrites=True
                 if len(got) != len(results) or any(a != b for a, b in zip(got, results)):
                     errors.append(("C18:picker_once", f"{op[0]} of {len(results)} result(s) called the picker {len(got)} times "
                                                       f"(arguments {got[:3]!r}, results {results[:3]!r})"))
+        elif op[0] == "tell_bad":
+            got = picker.calls[ncalls:]
+            if len(got) != 1 or got[0] != bad_result(op[2], op[3]):
+                errors.append(("C18:picker_once", f"tell of one result called the picker {len(got)} times (arguments {got[:3]!r})"))
         elif len(picker.calls) != ncalls:
             errors.append(("C18:picker_once", f"{op[0]} called the picker"))
+        kept_rejected = None
+        if extra_before is not None and out[0] in ("rejected", "exc") and list(ds.extra_data.items()) != extra_before:
+            tainted[0] = True
+            kept_rejected = [k for k in ds.extra_data if k not in dict(extra_before) or ds.extra_data[k] != dict(extra_before)[k]]
+            if out[0] == "rejected":
+                errors.append(("C18:picker_rejected_result_kept",
+                               f"tell({dec_point(kind, child, op[1])!r}, {bad_result(op[2], op[3])!r}) raised {out[1]} in the picker, the "
+                               f"wrapped learner was told nothing, but extra_data now holds a result for {kept_rejected[:3]} "
+                               f"(keys before {[k for k, _ in extra_before][:5]})"))
+            elif tout[0] == "exc":
+                errors.append(("C18:rejected_tell_keeps_result",
+                               f"tell({dec_point(kind, child, op[1])!r}, ...) was rejected by the wrapped learner ({out[1]}, the bare "
+                               f"learner rejects it too) but extra_data keeps a full result for {kept_rejected[:3]}, a point the "
+                               f"wrapped learner has no value for"))
+        if op[0] == "tell_bad" and out[0] == "none":
+            # the picker let it through and the wrapped learner took it (Learner1D ignores any value for a point it
+            # knows): an ordinary tell of an odd result; the history ends here (the result has no numeric picked value)
+            stop = "bad-result-accepted"
+            tainted[0] = True
+            if tout[0] == "none":
+                hp = W.hashable(kind, dec_point(kind, child, op[1]))
+                if hp not in expected_extra:
+                    key_order.append(hp)
+                expected_extra[hp] = expected_extra.get(hp, []) + [bad_result(op[2], op[3])]
         if out[0] == "ask" and op[2]:
             outstanding.extend(out[3])
         if op[0] == "remove_unfinished":
@@ -586,7 +687,9 @@ def drive(spec, hist=None, rng=None, concrete=None, record=True, overwrites=True
         extra_ok = False
         lost = [hp for hp in key_order if hp not in keys]
         stray = [k for k in keys if k not in T and k not in excused]
-        if judged_restore and not surplus and missing and all(k in kept for k in missing):
+        if kept_rejected is not None:
+            pass                                  # reported above
+        elif judged_restore and not surplus and missing and all(k in kept for k in missing):
             extra_ok = True                       # reported above (results dropped by a load); the history goes on
         elif judged_restore and (surplus or missing):
             pass                                  # reported above
@@ -622,6 +725,8 @@ def drive(spec, hist=None, rng=None, concrete=None, record=True, overwrites=True
                 out, tout = ("exc", "observing:" + str(sx)), ("exc", "observing:" + str(tx))
         if out[0] == "exc" or tout[0] == "exc":
             stop = "exception:" + (out[1] if out[0] == "exc" else tout[1])
+        elif stop == "bad-result-accepted":
+            pass
         elif not extra_ok:
             stop = "extra_data-wrong"          # reported above; the model comparison needs well-formed extra_data
         else:                                  # (the twin comparison still runs on this step)
@@ -678,7 +783,8 @@ def drive(spec, hist=None, rng=None, concrete=None, record=True, overwrites=True
             if k == "ask":
                 # LearnerND.ask(0) raises ValueError, AverageLearner.ask(0) ZeroDivisionError (quirks of the
                 # children, the same with and without the wrapper): keep only a few
-                do(("ask", max(a[1], 1) if kind in ("lnd", "avg", "avg1d") and rng.random() < 0.9 else a[1], a[2]), full)
+                do(("ask", max(a[1], 1) if kind in ("lnd", "avg", "avg1d") and rng.random() < 0.9 else a[1], a[2],
+                    rng.choice(SPELLINGS)), full)
             elif k == "tell":
                 got = new_point(a[1], a[2])
                 if got is not None:
@@ -702,19 +808,39 @@ def drive(spec, hist=None, rng=None, concrete=None, record=True, overwrites=True
                     y = W.evaluate(kind, child, p) + (1.0 if again else 0.0)
                     told_keys.append(p)
                     items.append([W.enc_point(kind, p), y, tag[0]])
-                do(("tell_many", items, a[2], a[3]), full)
+                do(("tell_many", items, a[2], a[3], rng.choice(["pos", "kw"])), full)
             elif k == "tell_pending_told":
                 # a point whose result has already arrived is announced as pending (again): tolerated by
                 # Learner1D (no-op), AverageLearner and SequenceLearner (marked pending)
                 if kind in FREE_KINDS and told_keys:
-                    do(("tell_pending", W.enc_point(kind, rng.choice(told_keys))), full)
+                    do(("tell_pending", W.enc_point(kind, rng.choice(told_keys)), rng.choice(["pos", "kw"])), full)
             elif k == "tell_pending" and kind in FREE_KINDS:
                 p = new_point("unsolicited")[0]
                 hp = W.hashable(kind, p)
                 if hp not in set(told_map(kind, child)) | {W.hashable(kind, q) for q in child.pending_points}:
-                    do(("tell_pending", W.enc_point(kind, p)), full)
+                    do(("tell_pending", W.enc_point(kind, p), rng.choice(["pos", "kw"])), full)
             elif k == "loss":
-                do(("loss", a[1]), full)
+                do(("loss", a[1], rng.choice(SPELLINGS)), full)
+            elif k == "tell_bad":
+                # a result the partial picker rejects (the point stays outstanding); with the identity picker: a result
+                # / a point the wrapped learner itself rejects
+                tag[0] += 1
+                if pname != "identity":
+                    src = rng.choice(["outstanding", "unsolicited", "again"])
+                    got = new_point(src)
+                    if got is not None:
+                        if src == "outstanding":
+                            outstanding.append(got[0])
+                        do(("tell_bad", W.enc_point(kind, got[0]), rng.choice(BAD_KINDS), tag[0]), full)
+                elif kind in ("l1d", "avg1d"):
+                    src = rng.choice(["outstanding", "unsolicited"])
+                    got = new_point(src)
+                    if got is not None:
+                        if src == "outstanding":
+                            outstanding.append(got[0])
+                        do(("tell_bad", W.enc_point(kind, got[0]), "none", tag[0]), full)
+                elif kind == "int":
+                    do(("tell", [0.37109375], 0.5, tag[0]), full)      # not a node of any interval
             elif k == "remove_unfinished" and kind != "lnd":       # F5
                 do(("remove_unfinished",), full)
             elif k == "save":
@@ -761,7 +887,7 @@ def drive(spec, hist=None, rng=None, concrete=None, record=True, overwrites=True
                            f"(its wrapped learner knows {sorted(told_map(kind, donor['ds'].learner))[:6]})"))
     return {"steps": steps, "rec": rec, "ds": ds, "twin": twin, "errors": errors, "stop": stop, "child": child,
             "retell_at": retell_at[0], "drop_at": drop_at[0], "expected_extra": expected_extra, "key_order": key_order,
-            "excused": excused, "loaded_extra": loaded_extra, "stats": stats}
+            "excused": excused, "loaded_extra": loaded_extra, "stats": stats, "tainted": tainted[0]}
 
 
 def twin_check(spec, res):
@@ -774,6 +900,9 @@ def twin_check(spec, res):
         if out[0] == "exc":
             if out[1] != tout[1]:
                 errs.append(("C18:twin_outcome", f"step {j} {op[0]}: wrapped raised {out[1]}, bare learner raised {tout[1]}"))
+            break
+        if out[0] == "rejected" and out[1] != tout[1]:
+            errs.append(("C18:twin_outcome", f"step {j} {op[0]}: the DataSaver raised {out[1]}, the picker raises {tout[1]}"))
             break
         if out[0] == "ask" and (out[1] != tout[1] or not all(feq(a, b) for a, b in zip(out[2], tout[2])) or len(out[2]) != len(tout[2])):
             errs.append(("C18:twin_ask", f"step {j}: ask({op[1]}) wrapped -> {out[1][:4]} {out[2][:4]}, bare -> {tout[1][:4]} {tout[2][:4]}"))
@@ -904,8 +1033,8 @@ def coq_ops(spec, res, steps):
         if op[0] in ("inner_tmap", "donor_step"):
             break                      # tell_many_at_point on the wrapped learner: not a call the oracle child records;
                                        # the other run goes on: it may share objects with the wrapped learner (copy_from)
-        if op[0] == "save":
-            continue
+        if op[0] == "save" or (op[0] == "tell_bad" and o[0] == "rejected"):
+            continue                   # nothing happens to the saver (the model's picker is total)
         if op[0] == "tell":
             r = make_result(spec["picker"], op[2], op[3])
             op = ("tell", op[1], float(pk(r)), tag_of(spec["picker"], r))
@@ -1085,7 +1214,10 @@ def run(chk: Check) -> int:
         rule="histories generated by driving the real DataSaver over Learner1D / Learner2D / LearnerND / SequenceLearner / "
              "AverageLearner / AverageLearner1D / IntegratorLearner (30 % of them already holding data when wrapped) with three pickers (operator.itemgetter, a lambda on dict results, identity): asks (committing and not), "
              "out-of-order, unsolicited and repeated tells of full results, tell_many batches of 0-5 (lists, tuples and one-shot iterables: "
-             "generator, map, zip-derived, iter; mixed new/known points), tell_pending of new and of already told points, loss(real), "
+             "generator, map, zip-derived, iter; mixed new/known points), tell_pending of new and of already told points, loss(real) -- every delegated method with positional, keyword and "
+             "defaulted spellings of its parameters, the same on wrapper and twin --, results the partial pickers reject (missing key, "
+             "wrong type, None: the saver must raise and stay as it was, the twin is told nothing) and tells the wrapped learner "
+             "itself rejects, "
              "remove_unfinished, checkpoints (save) and load / _set_data / copy_from of an earlier checkpoint or of another run INTO "
              "the saver as it is, tells and loads on the wrapped learner behind the saver's back; each history is "
              "run in lock-step on the bare learner fed the picked values (twin; every public observable compared after every "
